@@ -141,6 +141,17 @@ func buildSeeds(c *Ctx, withLarge bool) []seedFrame {
 			c.Count("seeds_rejected_by_reference", 1)
 		}
 	}
+	// a skippable frame (with payload) in front of a data frame: cuts inside it are truncations too
+	if len(seeds) > 0 {
+		base0 := seeds[0]
+		var pre []byte
+		pre = append(pre, 0x53, 0x2A, 0x4D, 0x18, 64, 0, 0, 0)
+		pre = append(pre, g.Bytes(64)...)
+		frame := append(pre, base0.frame...)
+		if pf, err := ref.ParseFrame(frame, ref.ParseOpts{EnforceBlockMax: true}); err == nil && bytes.Equal(pf.Content, base0.input) {
+			seeds = append(seeds, seedFrame{name: "skippable-prefix/" + base0.name, cfg: base0.cfg, input: base0.input, frame: frame, pf: pf})
+		}
+	}
 	if withLarge {
 		cfg := base
 		cfg.bc, cfg.cc = true, true
